@@ -424,7 +424,7 @@ def _sites(kind):
     s = ['ctor']
     if kind == 'empty':
         s += ['filter', 'collapse', 'errcheck', 'remove_empty', 'subsample',
-              'partition']
+              'partition', 'update_ids-inplace']
     if kind in ('obsdup', 'sampdup'):
         s += ['update_ids', 'copy', 'derive', 'filter-inplace']
     return s
@@ -474,6 +474,17 @@ def _call_site(ctx, kind, site, trigger, variant=0):
             return (lambda: ctx.err.errcheck(e, 'empty')), ([], [])
         return (lambda: ctx.err.errcheck(base, 'empty')), (['o1', 'o2'],
                                                            ['s1', 's2'])
+    if site == 'update_ids-inplace':
+        # a table an earlier filter left without samples (while that was
+        # tolerated) is renamed in place under the profile in force now: the
+        # renamed receiver is judged like any other result
+        if trigger:
+            with ctx.err.errstate(empty='ignore'):
+                e = base.filter([], inplace=False)
+        else:
+            e = base
+        return (lambda: e.update_ids({'o1': 'x1'}, axis='observation',
+                                     strict=False, inplace=True)), None
     if site == 'filter-inplace':
         # ... and an in-place filter judges its receiver
         # when it is done, whatever that receiver was like before
